@@ -125,7 +125,10 @@ var rawURIs = []string{"/x", "/a/b?c=d&e=f", "/", "//evil.test/p", "/\\evil.test
 	// raw backslashes and dot segments: what the redirect helper's path cleaning may turn into a leading "/\" or "//"
 	"/./\\evil.test/p", "/x/../\\evil.test", "/a/b/../../\\evil.test/?q=1", "/.//\\evil.test", "/./\\/evil.test", "/x/..\\evil.test", "/..\\..\\evil.test", "/.\\evil.test",
 	// scheme-relative with a percent-encoded pseudo-authority (net/url refuses to parse such a host; browsers decode it)
-	"//evil%2etest/account", "//%65vil.test/x?y=1", "//evil.test%2f@app.test/", "//evil.test:%38%30/", "/%2f%2fevil.test", "///evil.test/x", "//evil.test%00/"}
+	"//evil%2etest/account", "//%65vil.test/x?y=1", "//evil.test%2f@app.test/", "//evil.test:%38%30/", "/%2f%2fevil.test", "///evil.test/x", "//evil.test%00/",
+	// a first path segment that is a (percent-encoded) backslash followed by a host: what a target made absolute against the
+	// directory of the request path would begin with
+	"/%5Cevil.test/x", "/%5cevil.test/x/y?z=1", "/%5Cevil.test/", "/%2Fevil.test/x/"}
 
 func (w *world) sym(v string) string {
 	if v == "" {
@@ -159,6 +162,14 @@ func newWorld(sc int, rng interface{ Intn(int) int }) *world {
 	w := &world{sc: sc, syms: map[string]string{}, toks: map[string]*hTok{}, lastInit: map[int]*initRec{}, allInits: map[int][]*initRec{}, codes: map[string]*issuedCode{},
 		loggedIn: map[int]bool{}, tampered: map[int]bool{}, loginTok: map[int]*hTok{}, loginAt: map[int]int64{}, emitted: map[string]bool{}, allRandoms: map[string]string{}, rtOf: map[int]string{}, loggedOut: map[int]bool{}, jtiSeen: map[string]bool{}, born: map[string]int64{}, answerByCode: map[string]tokenAnswer{}, markersSent: map[int][]string{}}
 	w.p = newProvider(keys()["p256a"], keys()["rsa2048a"])
+	if T.prop == "C15" || T.prop == "C03" { // providers whose discovery document names the authorization endpoint relative to the issuer
+		switch sc % 3 {
+		case 1:
+			w.p.doc = M{"authorization_endpoint": "auth"}
+		case 2:
+			w.p.doc = M{"authorization_endpoint": "/auth"}
+		}
+	}
 	w.pkce = rng.Intn(2) == 0
 	w.force = rng.Intn(3) == 0
 	w.grace = []int{60, 60, 300, 30}[rng.Intn(4)]
@@ -257,7 +268,8 @@ func (w *world) exchange(form url.Values) tokenAnswer {
 func (w *world) exchange1(form url.Values) tokenAnswer {
 	c := w.codes[form.Get("code")]
 	if c == nil || c.used || (c.redirect != "" && form.Get("redirect_uri") != c.redirect) { // redirect "": a direct code whose sender registered whatever URI the deployment will present
-		return tokenAnswer{kind: "4xx", desc: "bad code"}
+		// providers refuse a bad code with 400 (RFC 6749), some with 401 or 403: all are the client's fault
+		return tokenAnswer{kind: []string{"4xx", "4xx", "invalid_client", "forbidden"}[w.sc%4], desc: "bad code"}
 	}
 	w.lastVerifier, w.lastVerifierSeen = form.Get("code_verifier"), true
 	if !w.pkceLax && c.challenge != "" && s256(form.Get("code_verifier")) != c.challenge { // (a lax provider accepts a challenge at /auth and never asks for the verifier)
